@@ -666,6 +666,7 @@ int _vnacal_new_add_common(vnacal_new_add_arguments_t vnaa)
 	goto out;
     }
     (void)memset((void *)vnmp, 0, sizeof(vnacal_new_measurement_t));
+    vnmp->vnm_vnp = vnp;
     if ((vnmp->vnm_m_matrix = full_m_matrix =
 		calloc(full_m_rows * full_m_columns,
 		    sizeof(double complex *))) == NULL) {
@@ -690,7 +691,6 @@ int _vnacal_new_add_common(vnacal_new_add_arguments_t vnaa)
 		"calloc %s", strerror(errno));
 	goto out;
     }
-    vnmp->vnm_vnp = vnp;
 
     /*
      * If no 'a' matrix was given, just copy the m vectors.
